@@ -63,8 +63,8 @@ SLOW_ARMS = ("learn_bigval",)
 
 def arms(tier):
     if tier == "thorough":
-        return [("learn_adv", 1_800_000), ("learn_uni", 700_000), ("prune", 1_000_000), ("relevance", 1_500_000), ("seq", 900_000), ("learn_bigval", 16_000)]
-    return [("learn_adv", 60_000), ("learn_uni", 25_000), ("prune", 40_000), ("relevance", 60_000), ("seq", 30_000), ("learn_bigval", 480)]
+        return [("learn_adv", 1_800_000), ("learn_uni", 700_000), ("prune", 1_000_000), ("relevance", 1_500_000), ("seq", 1_800_000), ("learn_bigval", 16_000)]
+    return [("learn_adv", 60_000), ("learn_uni", 25_000), ("prune", 40_000), ("relevance", 60_000), ("seq", 70_000), ("learn_bigval", 480)]
 
 
 def hist_slice(tier):
@@ -599,7 +599,14 @@ def run_case(case):
                 # a pass on a model with history: the union of everything predicted since its
                 # last fit is unknown here, so only a fresh-fit pass gets the full J3 (below)
                 obs.op = "seq-predict"
-                lib_call("predict", opf.predict, Xv.copy())
+                # validation rows plus points between / beyond the current training rows
+                extra = []
+                nt_ = len(Xt)
+                for a_ in range(nt_):
+                    b_ = (a_ * 7 + 3) % nt_
+                    extra.append((np.asarray(Xt[a_], dtype=np.float64) + np.asarray(Xt[b_], dtype=np.float64)) / 2.0)
+                    extra.append(np.asarray(Xt[a_], dtype=np.float64) * 1.5 + 0.25)  # stays inside the data's sign domain
+                lib_call("predict", opf.predict, np.vstack([np.asarray(Xv, dtype=np.float64)] + extra))
                 state_bits.append((step,))
             else:
                 pre_mode = case.get("pre_seed") is not None and len(case.get("ids", [])) == len(Xt) and len(case.get("val_ids", [])) == len(Xv)
